@@ -394,6 +394,43 @@ def misc(ctx, al):
             ctx.violation("C03:tee-noniterable", {"object": repr(obj)})
 
 
+def hub_of_hub(ctx, al):
+    """A thub whose data is one use of another thub: a NEW hub handing out exactly n uses (each the whole sequence),
+    then IndexError; the inner hub has spent exactly one use."""
+    seq = [5, -2, 0, 7, 7, 1]
+    for k in (1, 2, 3):
+        for n in (1, 2, 3):
+            ctx.count(1)
+            info = {"inner_uses": k, "outer_uses": n}
+            try:
+                inner = al.thub(al.Stream(list(seq)), k)
+                outer = al.thub(inner, n)
+                got = []
+                for _ in range(n):
+                    got.append(list(al.Stream(outer)))
+                extra = None
+                try:
+                    al.Stream(outer)
+                    extra = "a use beyond n was handed out"
+                except IndexError:
+                    pass
+                left = 0
+                for _ in range(k + 2):
+                    try:
+                        got_inner = list(al.Stream(inner))
+                        left += 1
+                        if got_inner != seq:
+                            extra = "inner use yields %r" % (got_inner,)
+                    except IndexError:
+                        break
+            except Exception as ex:                     # noqa: the statement promises values
+                ctx.violation("C03:hub-of-hub:raises", dict(info, error="%s: %s" % (type(ex).__name__, str(ex)[:100])))
+                continue
+            if any(g != seq for g in got) or extra or left != k - 1 or (outer is inner):
+                ctx.violation("C03:hub-of-hub", dict(info, uses=got, note=extra, inner_uses_left=left,
+                                                     expected_inner_left=k - 1, same_object=outer is inner))
+
+
 def check(ctx):
     al = common.import_audiolazy()
     warnings.simplefilter("ignore")
@@ -403,6 +440,7 @@ def check(ctx):
                        "excluded (they do not terminate)", "float counts are not exact ties",
                        "a stream appended to another / handed to tee or thub is not used again (documented)"]
     misc(ctx, al)
+    hub_of_hub(ctx, al)
     m2(ctx, al, "StreamHistC03_tokens.cfg", "every count token, depth 2")
     if ctx.thorough:
         m2(ctx, al, "StreamHistC03_quick.cfg", "representative counts, depth 3")
